@@ -186,6 +186,11 @@ static rc::Gen<std::vector<LD>> gen_vec(int nt, int n, int margin) {
                         if (n == 2) v[2] = 0;
                         if (mode == 0) { for (int i = 0; i < n; i++) if (i != ax) v[(size_t)i] = 0; } else if (mode == 1 && n == 3) v[(size_t)ax] = 0; else if (mode == 2) v[(size_t)ax] = std::ldexp(v[(size_t)ax], -deg);
                         else if (mode == 4) v[(size_t)ax] = std::signbit(v[(size_t)ax]) ? -(LD)0 : (LD)0;
+                        else if (mode == 5 || mode == 6) {
+                          // a vector that is *nearly* of unit length, |v| = 1 + 2^-j (or 1 - 2^-j), at absolute scale one: "already normalised" shortcuts live here
+                          LD len = 0; for (int i = 0; i < n; i++) len += v[(size_t)i] * v[(size_t)i]; len = std::sqrt(len);
+                          if (len > 0) { const LD f = 1 + (mode == 5 ? 1 : -1) * std::ldexp((LD)1, -(8 + deg)); for (int i = 0; i < n; i++) v[(size_t)i] = round_to(nt, v[(size_t)i] / len * f); return v; }
+                        }
                         for (auto& x : v) x = std::ldexp(x, k);
                         return v;
                       });
